@@ -1273,3 +1273,149 @@ Qed.
 
 Lemma witness_root SE id : witness SE 0 [([], id)] [].
 Proof. intros _. exists []. split; [constructor|]. split; [intros ? []|]. split; [intros ? []|cbn; lia]. Qed.
+
+(* ====================================================================== *)
+(* G. the breadth-first search against the pruned unfolding                  *)
+(* ====================================================================== *)
+
+Definition cap2 (n : nat) : nat := Nat.min n 2.
+Definition cw (m : nat) : nat := if Nat.ltb 1 m then 2%nat else 1%nat.
+Definition dupc (b : bool) (c : cand) : list cand := if b then [c; c] else [c].
+Definition ideq (T : Z) (p : path) : bool := snd p =? T.
+
+Lemma cap2_add a b : cap2 (a + b) = cap2 (cap2 a + cap2 b).
+Proof. unfold cap2. lia. Qed.
+Lemma cap2_mul a e : cap2 (cap2 a * e) = cap2 (a * e).
+Proof.
+  unfold cap2. destruct (Nat.le_gt_cases a 2) as [H|H]; [rewrite (Nat.min_l a 2 H); reflexivity|].
+  rewrite (Nat.min_r a 2) by lia. destruct e as [|e]; [rewrite !Nat.mul_0_r; reflexivity|]. nia.
+Qed.
+Lemma cap2_idem a : cap2 (cap2 a) = cap2 a.
+Proof. unfold cap2. lia. Qed.
+Lemma cap2_sumf {X} (g h : X -> nat) l :
+  (forall x, In x l -> cap2 (g x) = cap2 (h x)) -> cap2 (sumf g l) = cap2 (sumf h l).
+Proof.
+  induction l as [|x l IH]; intros H; [reflexivity|]. cbn [sumf].
+  rewrite cap2_add, (cap2_add (h x)), (H x (or_introl eq_refl)), IH; [reflexivity|].
+  intros y Hy. apply H. right. exact Hy.
+Qed.
+Lemma cw_cap2 m : (1 <= m)%nat -> cw m = cap2 m.
+Proof. unfold cw, cap2. destruct (Nat.ltb_spec 1 m); lia. Qed.
+
+Lemma sumf_app {X} (g : X -> nat) l1 l2 : sumf g (l1 ++ l2) = (sumf g l1 + sumf g l2)%nat.
+Proof. induction l1 as [|x l IH]; [reflexivity|]. cbn [app sumf]. rewrite IH. lia. Qed.
+Lemma sumf_ext_in {X} (g h : X -> nat) l : (forall x, In x l -> g x = h x) -> sumf g l = sumf h l.
+Proof.
+  induction l as [|x l IH]; intros H; [reflexivity|]. cbn [sumf]. rewrite (H x (or_introl eq_refl)), IH; [reflexivity|].
+  intros y Hy. apply H. right. exact Hy.
+Qed.
+Lemma sumf_ge {X} (g : X -> nat) l x : In x l -> (g x <= sumf g l)%nat.
+Proof. induction l as [|y l IH]; [intros []|]. cbn [sumf]. intros [->|H]; [lia|]. specialize (IH H). lia. Qed.
+Lemma cnt_flat_map {X Y} (p : Y -> bool) (g : X -> list Y) l : cnt p (flat_map g l) = sumf (fun x => cnt p (g x)) l.
+Proof. induction l as [|x l IH]; [reflexivity|]. cbn [flat_map sumf]. rewrite cnt_app, IH. reflexivity. Qed.
+Lemma cnt_dupc p b l : cnt p (flat_map (dupc b) l) = ((if b then 2 else 1) * cnt p l)%nat.
+Proof.
+  induction l as [|c l IH]; [cbn; lia|]. cbn [flat_map]. rewrite cnt_app, cnt_cons, IH.
+  unfold dupc. destruct b; rewrite ?cnt_cons, cnt_nil; destruct (p c); lia.
+Qed.
+
+(* --- counts --- *)
+Lemma count_get_add c id k T :
+  count_get (count_add c id k) T = (count_get c T + (if Z.eqb id T then k else 0))%nat.
+Proof.
+  induction c as [|[i n] r IH]; cbn [count_add count_get].
+  - destruct (id =? T); lia.
+  - destruct (Z.eqb_spec i id) as [->|Hne]; cbn [count_get].
+    + destruct (id =? T); lia.
+    + destruct (Z.eqb_spec i T) as [->|Hne2]; [|exact IH].
+      destruct (Z.eqb_spec id T); [congruence|lia].
+Qed.
+
+(* the queue for the next level holds exactly the ids with a positive count, once each *)
+Definition NX (a : bfs_acc) : Prop :=
+  NoDup (map snd (b_next a)) /\ forall T, In T (map snd (b_next a)) <-> (0 < count_get (b_ncount a) T)%nat.
+
+Lemma NoDup_snoc {X} (l : list X) x : NoDup l -> ~ In x l -> NoDup (l ++ [x]).
+Proof.
+  intros H Hn. eapply Permutation_NoDup; [apply Permutation_cons_append|]. constructor; assumption.
+Qed.
+
+Lemma scan_spec : forall fs i route mult a, NX a ->
+  let a' := scan fs i route mult a in
+  b_fields a' = b_fields a ++ flat_map (dupc (Nat.ltb 1 mult)) (cands_from fs i route) /\
+  (forall T, count_get (b_ncount a') T
+             = (count_get (b_ncount a) T + cw mult * cnt (ideq T) (embeds_from fs i route))%nat) /\
+  NX a' /\
+  (forall p', In p' (b_next a') -> In p' (b_next a) \/ In p' (embeds_from fs i route)).
+Proof.
+  induction fs as [|sf fs IH]; intros i route mult a HNX; cbv zeta.
+  { cbn [scan cands_from embeds_from flat_map]. rewrite app_nil_r. split; [reflexivity|].
+    split; [intros T; rewrite cnt_nil; lia|]. split; [exact HNX|]. auto. }
+  cbn [scan cands_from embeds_from]. destruct (classify route i sf) as [|c|id] eqn:Ec.
+  - apply IH. exact HNX.
+  - match goal with |- context [scan fs (S i) route mult ?a1] => set (A1 := a1) end.
+    assert (HNX1 : NX A1) by exact HNX.
+    destruct (IH (S i) route mult A1 HNX1) as (Hf & Hcn & HNX' & Hnx). cbv zeta in *.
+    split; [|split; [|split]]; auto.
+    rewrite Hf. unfold A1. cbn [b_fields flat_map]. rewrite <- app_assoc. reflexivity.
+  - match goal with |- context [scan fs (S i) route mult ?a1] => set (A1 := a1) end.
+    destruct HNX as [Hnd Hcov].
+    assert (HNX1 : NX A1).
+    { unfold A1, NX. cbn [b_next b_ncount]. split.
+      - destruct (Nat.eqb_spec (count_get (b_ncount a) id) 0) as [E|E]; [|exact Hnd].
+        rewrite map_app. cbn [map snd]. apply NoDup_snoc; [exact Hnd|]. rewrite Hcov. lia.
+      - intros T. rewrite count_get_add.
+        destruct (Nat.eqb_spec (count_get (b_ncount a) id) 0) as [E|E].
+        + rewrite map_app, in_app_iff, Hcov. cbn [map snd In].
+          destruct (Z.eqb_spec id T) as [->|Hne]; unfold cw; destruct (Nat.ltb 1 mult); intuition lia.
+        + rewrite Hcov. destruct (Z.eqb_spec id T) as [->|Hne]; unfold cw; destruct (Nat.ltb 1 mult); lia. }
+    destruct (IH (S i) route mult A1 HNX1) as (Hf & Hcn & HNX' & Hnx). cbv zeta in *.
+    split; [|split; [|split]]; auto.
+    + intros T. rewrite Hcn. unfold A1. cbn [b_ncount]. rewrite count_get_add, cnt_cons.
+      unfold ideq at 2. cbn [snd]. fold (cw mult). destruct (id =? T); lia.
+    + intros p' Hp'. destruct (Hnx p' Hp') as [H|H]; [|right; right; exact H].
+      unfold A1 in H. cbn [b_next] in H.
+      destruct (Nat.eqb (count_get (b_ncount a) id) 0); [|left; exact H].
+      apply in_app_or in H. destruct H as [H|[<-|[]]]; [left; exact H|right; left; reflexivity].
+Qed.
+
+Lemma level_spec SE count : forall cur visited a, NoDup (map snd cur) -> NX a ->
+  let r := level SE cur count visited a in
+  let Fr := filter (freshb visited) cur in
+  (forall T, In T (fst r) <-> In T visited \/ In T (map snd cur)) /\
+  b_fields (snd r) = b_fields a ++
+     flat_map (fun p => flat_map (dupc (Nat.ltb 1 (count_get count (snd p)))) (cands SE p)) Fr /\
+  (forall T, count_get (b_ncount (snd r)) T
+             = (count_get (b_ncount a) T
+                + sumf (fun p => cw (count_get count (snd p)) * cnt (ideq T) (embeds SE p)) Fr)%nat) /\
+  NX (snd r) /\
+  (forall p', In p' (b_next (snd r)) -> In p' (b_next a) \/ exists p, In p Fr /\ In p' (embeds SE p)).
+Proof.
+  induction cur as [|[route id] rest IH]; intros visited a Hnd HNX; cbv zeta.
+  { cbn [level filter flat_map sumf fst snd map In]. rewrite app_nil_r. split; [intros T; tauto|].
+    split; [reflexivity|]. split; [intros T; lia|]. split; [exact HNX|]. auto. }
+  cbn [map snd] in Hnd. inversion Hnd as [|? ? Hnin Hnd']; subst.
+  cbn [level filter]. change (freshb visited (route, id)) with (negb (existsb (Z.eqb id) visited)).
+  destruct (existsb (Z.eqb id) visited) eqn:Ev; cbn [negb].
+  - destruct (IH visited a Hnd' HNX) as (Hv & Hf & Hc & HN & Hn). cbv zeta in *.
+    split; [|auto]. intros T. rewrite Hv. cbn [map snd In].
+    assert (In id visited) by (apply memZ_In; exact Ev). intuition (subst; auto).
+  - fold (fields_of SE id).
+    set (a1 := scan (fields_of SE id) 0 route (count_get count id) a).
+    destruct (scan_spec (fields_of SE id) 0 route (count_get count id) a HNX) as (Sf & Sc & SN & Sn).
+    cbv zeta in *. fold a1 in Sf, Sc, SN, Sn.
+    destruct (IH (id :: visited) a1 Hnd' SN) as (Hv & Hf & Hc & HN & Hn). cbv zeta in *.
+    assert (EF : filter (freshb (id :: visited)) rest = filter (freshb visited) rest).
+    { apply filter_ext_in. intros p Hp. unfold freshb, memZ. cbn [existsb].
+      destruct (Z.eqb_spec (snd p) id) as [E|E]; [|reflexivity].
+      exfalso. apply Hnin. rewrite <- E. apply in_map. exact Hp. }
+    rewrite EF in *.
+    split; [|split; [|split; [|split]]].
+    + intros T. rewrite Hv. cbn [map snd In]. tauto.
+    + rewrite Hf, Sf. cbn [flat_map snd]. rewrite <- app_assoc. reflexivity.
+    + intros T. rewrite Hc, Sc. cbn [sumf snd]. unfold embeds. cbn [fst snd]. lia.
+    + exact HN.
+    + intros p' Hp'. destruct (Hn p' Hp') as [H|(p & Hp & H)].
+      * destruct (Sn p' H) as [H'|H']; [left; exact H'|]. right. exists (route, id). split; [left; reflexivity|exact H'].
+      * right. exists p. split; [right; exact Hp|exact H].
+Qed.
